@@ -42,18 +42,19 @@ def f6_pattern_in_text(teal: str, reserved=()) -> bool:
 
     prog = tp.parse(teal)
     ins = [[i.op, i.args[0] if i.args else None] for i in prog.instrs]
-    # recursion spill code (`load a; load b; [uncover n]*; callsub f; [cover/swap]*; store b; store a`) is added after
+    # recursion spill code (`load a; load b; [uncover n]*; callsub f; [cover/swap]*; store b; store a`, or with a `cover n`
+    # after each load) is added after
     # the optimiser ran: those accesses are invisible to it, so they are taken out of the model
     spill = set()
     for c, (o, a) in enumerate(ins):
         if o != "callsub":
             continue
         j = c - 1
-        while j >= 0 and ins[j][0] == "uncover":
-            j -= 1
         before = {}
-        while j >= 0 and ins[j][0] == "load":
-            before[ins[j][1]] = j
+        # both layouts occur: `load a; load b; uncover n; uncover n; callsub` and `load a; cover n; load b; cover n; callsub`
+        while j >= 0 and ins[j][0] in ("uncover", "cover", "load"):
+            if ins[j][0] == "load":
+                before.setdefault(ins[j][1], j)
             j -= 1
         j = c + 1
         after = {}
